@@ -33,88 +33,93 @@ var c04Shapes = func() []int {
 func TestVerifC04Storage(t *testing.T) {
 	rec := vfstat.New("C04Storage")
 	defer rec.Flush()
+	outer := t
 	rapid.Check(t, func(t *rapid.T) {
-		dir, cleanup := simTempDir()
-		defer cleanup()
-		s := newSimSys(t, dir)
-		big := (os.Getenv("VERIF_TIER") == "thorough" || os.Getenv("VERIF_BIG") != "") && rapid.IntRange(0, 59).Draw(t, "bigBase") <= simEnvInt("VERIF_BIG", 0)
-		bigNext := 0
-		if big {
-			var base *simSys
-			base, bigNext = simBigBase(t)
-			s = base.clone(dir)
-			s.activate()
-		}
-		realStores := !big && simWantReal(rapid.IntRange(0, 9).Draw(t, "realStores"))
-		if realStores {
-			defer simAttachRealStores(s, dir)()
-		}
-		s.auditNames = true
-		s.auditOnPublish = true
-		s.auditNames = true
-		s.auditOnPublish = true
-		h := &simHist{s: s, opts: simHistOpts{MaxRounds: 7, ClockFaults: false, Faults: true, Shapes: c04Shapes, Existing: big, RoundDuringSubmit: true}, nextID: bigNext}
-		partialToFull := false
-		lastPub := int64(0)
-		h.afterRound = func(res *simRoundResult) error {
-			if n := len(s.published); n > 0 {
-				sz := s.published[n-1].Size
-				if sz != lastPub && lastPub%256 != 0 && sz/256 > lastPub/256 {
-					partialToFull = true
+		simInBubble(outer, func() {
+			dir, cleanup := simTempDir()
+			defer cleanup()
+			s := newSimSys(t, dir)
+			big := (os.Getenv("VERIF_TIER") == "thorough" || os.Getenv("VERIF_BIG") != "") && rapid.IntRange(0, 59).Draw(t, "bigBase") <= simEnvInt("VERIF_BIG", 0)
+			bigNext := 0
+			if big {
+				var base *simSys
+				base, bigNext = simBigBase(t)
+				s = base.clone(dir)
+				s.activate()
+			}
+			realStores := !big && simWantReal(rapid.IntRange(0, 9).Draw(t, "realStores"))
+			if realStores {
+				defer simAttachRealStores(s, dir)()
+			}
+			s.auditNames = true
+			s.auditOnPublish = true
+			s.auditNames = true
+			s.auditOnPublish = true
+			h := &simHist{s: s, opts: simHistOpts{MaxRounds: 7, ClockFaults: false, Faults: true, Shapes: c04Shapes, Existing: big, RoundDuringSubmit: true}, nextID: bigNext}
+			partialToFull := false
+			lastPub := int64(0)
+			h.afterRound = func(res *simRoundResult) error {
+				if n := len(s.published); n > 0 {
+					sz := s.published[n-1].Size
+					if sz != lastPub && lastPub%256 != 0 && sz/256 > lastPub/256 {
+						partialToFull = true
+					}
+					lastPub = sz
 				}
-				lastPub = sz
+				if v := s.w.violations(); len(v) > 0 {
+					return fmt.Errorf("%s", v[0])
+				}
+				return nil
 			}
-			if v := s.w.violations(); len(v) > 0 {
-				return fmt.Errorf("%s", v[0])
+			err := h.run(t)
+			if err == nil {
+				err = h.finish()
+			} else if h.in != nil {
+				h.in.close()
 			}
-			return nil
-		}
-		err := h.run(t)
-		if err == nil {
-			err = h.finish()
-		} else if h.in != nil {
-			h.in.close()
-		}
-		if err == nil && realStores {
-			err = simCompareRealDir(s, dir)
-		}
-		if err != nil {
-			t.Fatalf("C04 violated: %v\nhistory:\n  %s", err, strings.Join(h.st.Desc, "\n  "))
-		}
-		pre, iss, parse := 0, 0, 0
-		for _, e := range s.model {
-			if e.IsPrecert {
-				pre++
+			if err == nil && realStores {
+				err = simCompareRealDir(s, dir)
 			}
-			if len(e.Fingerprints) > 0 {
-				iss++
+			if err != nil {
+				t.Fatalf("C04 violated: %v\nhistory:\n  %s", err, strings.Join(h.st.Desc, "\n  "))
 			}
-			if _, ok := simExpectedNamesLine(e); ok {
-				parse++
+			pre, iss, parse := 0, 0, 0
+			for _, e := range s.model {
+				if e.IsPrecert {
+					pre++
+				}
+				if len(e.Fingerprints) > 0 {
+					iss++
+				}
+				if _, ok := simExpectedNamesLine(e); ok {
+					parse++
+				}
 			}
-		}
-		nt := len(s.published) >= 3 && partialToFull && pre > 0 && iss > 0
-		var cls []string
-		add := func(c bool, name string) {
-			if c {
-				cls = append(cls, name)
+			nt := len(s.published) >= 3 && partialToFull && pre > 0 && iss > 0
+			var cls []string
+			add := func(c bool, name string) {
+				if c {
+					cls = append(cls, name)
+				}
 			}
-		}
-		add(realStores, "real-LocalBackend+SQLite")
-		add(big, "crosses-65536")
-		add(partialToFull, "partial->full-transition")
-		add(pre > 0, "has-precert")
-		add(iss > 0, "has-issuers")
-		add(parse > 0, "has-parseable")
-		add(h.st.FaultsFired > 0, "fault-fired")
-		add(h.st.Crashes > 0, "crash")
-		add(h.st.MultiTile > 0, "multi-tile-round")
-		add(h.st.RoundsInsideSubmit > 0, "round-inside-issuer-upload")
-		rec.Add("admitted-before-issuer-stored", int64(s.admittedBeforeIssuer))
-		rec.Add("twins-with-issuers", int64(h.st.TwinsWithIssuers))
-		rec.Add("audits-at-publication", int64(s.audits))
-		rec.Add("leaves", int64(len(s.model)))
-		rec.Add("operations", int64(s.w.opN))
-		rec.CaseSample(fmt.Sprintf("sizes=%v %s", h.st.Sizes, strings.Join(h.st.Desc, "; ")), h.st.Desc, nt, cls...)
+			add(realStores, "real-LocalBackend+SQLite")
+			add(big, "crosses-65536")
+			add(partialToFull, "partial->full-transition")
+			add(pre > 0, "has-precert")
+			add(iss > 0, "has-issuers")
+			add(parse > 0, "has-parseable")
+			add(h.st.FaultsFired > 0, "fault-fired")
+			add(h.st.Crashes > 0, "crash")
+			add(h.st.MultiTile > 0, "multi-tile-round")
+			add(h.st.RoundsInsideSubmit > 0, "round-inside-issuer-upload")
+			rec.Add("admitted-before-issuer-stored", int64(s.admittedBeforeIssuer))
+			rec.Add("twins-with-issuers", int64(h.st.TwinsWithIssuers))
+			rec.Add("audits-at-publication", int64(s.audits))
+			rec.Add("leaves", int64(len(s.model)))
+			rec.Add("operations", int64(s.w.opN))
+			add(s.w.stalls > 0, "operation-stalled-until-deadline")
+			rec.Add("stalled-operations", int64(s.w.stalls))
+			rec.CaseSample(fmt.Sprintf("sizes=%v %s", h.st.Sizes, strings.Join(h.st.Desc, "; ")), h.st.Desc, nt, cls...)
+		})
 	})
 }
